@@ -258,7 +258,38 @@ struct Interp : World<Spline, TM, SM>
     }
 
     // one evaluation, with the oracles selected by `checks`
-    void do_eval(int k, uint64_t xseed, int xmode, int ws_sel, int ex_mode, uint64_t ex_seed, int workers, bool three, int checks)
+    // An evaluation that is cancelled from inside a user callback (the functor throws, the caller catches):
+    // the fault.  The workspace it used is then handed to the evaluation under test.
+    void aborted_eval(Handle &H, uint64_t xseed, WS *w, const env::SimExecutor &ex, bool three, int abort_functor, int64_t abort_call)
+    {
+        const Model &m = H.m;
+        CC ca;
+        ca.prog = &prog;
+        ca.nseg = m.prob.N();
+        ca.abort_functor = ((abort_functor % 4) + 4) % 4;
+        long total = ca.abort_functor == 3 ? (long)m.prob.N() * (m.K + 1) : 1;
+        ca.abort_call = (long)(((abort_call % total) + total) % total);
+        Eigen::VectorXd xa = this->gen_x(m, xseed ^ 0x5bd1e995ULL, 0);
+        bool thrown = false;
+        try
+        {
+            (void)W::call_eval(*H.o, xa, ca, w, ex, three);
+        }
+        catch (const InjectedAbort &)
+        {
+            thrown = true;
+        }
+        if (!w) H.m.has_internal_ws = true;
+        if (thrown)
+        {
+            ctx.count("fault.callback_abort");
+            ctx.count(std::string("fault.callback_abort.functor") + std::to_string(ca.abort_functor));
+            ctx.mark_nontrivial();
+        }
+    }
+
+    void do_eval(int k, uint64_t xseed, int xmode, int ws_sel, int ex_mode, uint64_t ex_seed, int workers, bool three, int checks, int abort_functor = 0,
+                 int64_t abort_call = 0)
     {
         Handle &H = h[k];
         const Model &m = H.m;
@@ -273,6 +304,11 @@ struct Interp : World<Spline, TM, SM>
         cc.trace = (checks & CHK_TRACE) ? &tr : nullptr;
         env::SimExecutor ex = make_exec(ex_mode, ex_seed, workers, m.prob.N());
         if (ex.mode != 0) ctx.mark_nontrivial();
+        if (abort_functor % 4 != 0)
+        {
+            aborted_eval(H, xseed, w, ex, three, abort_functor, abort_call);
+            if (!w) snapshot_exposed(k);
+        }
         EvalResult got;
         if (ex.mode == 0 && (ex_seed & 1))
         {
@@ -341,9 +377,13 @@ struct Interp : World<Spline, TM, SM>
         std::vector<bool> three(n);
         std::vector<EvalResult> res(n);
         std::vector<CC> ccs(n);
+        std::vector<int> abort_f(n, 0);
+        std::vector<int64_t> abort_c(n, 0);
+        const bool aborts = (o.I(5) & 1) != 0;
         for (int e = 0; e < n; ++e)
         {
             xs[e] = this->gen_x(m, r.next(), 0);
+            if (aborts && r.chance(0.5)) { abort_f[e] = 1 + (int)r.below(3); abort_c[e] = (int64_t)r.below(1u << 20); }
             // each evaluator has its own workspace; the first ones may be veterans from the pool
             if (e < W::kWS && r.chance(0.4))
             {
@@ -351,7 +391,12 @@ struct Interp : World<Spline, TM, SM>
                 wsp[e] = select_ws(1 + e, target, m.prob.N(), tmp);
             }
             else { own[e].reset(new WS()); wsp[e] = own[e].get(); }
-            exs[e] = make_exec((int)r.below(6), r.next(), (int)r.below(3));
+            {
+                int em = (int)r.below(6);
+                uint64_t es = r.next();
+                int ew = (int)r.below(3);
+                exs[e] = make_exec(em, es, ew);
+            }
             three[e] = r.chance(0.7);
             ccs[e].prog = &prog;
             ccs[e].nseg = m.prob.N();
@@ -361,6 +406,18 @@ struct Interp : World<Spline, TM, SM>
         for (int e = 0; e < n; ++e)
             ids.push_back(S.spawn([&, e, optr]() {
                 yield_point("evaluator_start");
+                if (abort_f[e])
+                {
+                    // this evaluator's first attempt is cancelled from inside a callback while the others keep running
+                    CC ca;
+                    ca.prog = &prog;
+                    ca.nseg = m.prob.N();
+                    ca.abort_functor = abort_f[e];
+                    long total = abort_f[e] == 3 ? (long)m.prob.N() * (m.K + 1) : 1;
+                    ca.abort_call = (long)(abort_c[e] % total);
+                    try { (void)W::call_eval(*optr, xs[(e + 1) % n], ca, wsp[e], exs[e], three[e]); }
+                    catch (const InjectedAbort &) { ctx.count("fault.callback_abort"); }
+                }
                 res[e] = W::call_eval(*optr, xs[e], ccs[e], wsp[e], exs[e], three[e]);
             }, "evaluator"));
         bool fault_done = false;
@@ -383,7 +440,9 @@ struct Interp : World<Spline, TM, SM>
                     mm.tm_kind = (m.tm_kind + 1) % 3; mm.tm_param = m.tm_param * 1.5; mm.sm_kind = (m.sm_kind + 1) % 5; mm.sm_param = m.sm_param * 0.75;
                     this->set_default_map_hooks(mm);
                     Opt other;
-                    Problem<DIM> p2 = prob::gen_problem<DIM>(r.next(), 1 + (int)r.below(4), ORDER, 2, false);
+                    uint64_t s2 = r.next();
+                    int n2 = 1 + (int)r.below(4);
+                    Problem<DIM> p2 = prob::gen_problem<DIM>(s2, n2, ORDER, 2, false);
                     W::set_init(other, p2);
                     *h[src].o = other;
                     mm.configured = true; mm.valid = true; mm.prob = p2;
@@ -624,7 +683,7 @@ struct Interp : World<Spline, TM, SM>
             {
                 int k = pick(o.I(0), true);
                 if (k < 0) break;
-                do_eval(k, (uint64_t)o.I(1), (int)(o.I(2) & 1), (int)o.I(3), (int)o.I(4), (uint64_t)o.I(5), (int)o.I(6), (o.I(7) & 1) != 0, (int)o.I(8));
+                do_eval(k, (uint64_t)o.I(1), (int)(o.I(2) & 1), (int)o.I(3), (int)o.I(4), (uint64_t)o.I(5), (int)o.I(6), (o.I(7) & 1) != 0, (int)o.I(8), (int)o.I(9), o.I(10));
                 break;
             }
             case OP_CONCURRENT: do_concurrent(o); break;
@@ -698,8 +757,22 @@ struct Interp : World<Spline, TM, SM>
                 if constexpr (W::kSimMaps)
                 {
                     int u = (int)(((o.I(0) % W::kUserMaps) + W::kUserMaps) % W::kUserMaps);
-                    if (o.I(1) & 1) user_tm[u]->a = 0.5 + 0.25 * (((o.I(2) % 6) + 6) % 6);
-                    else user_sm[u]->s = 0.75 + 0.25 * (((o.I(2) % 6) + 6) % 6);
+                    if ((o.I(1) & 3) == 1) user_tm[u]->a = 0.5 + 0.25 * (((o.I(2) % 6) + 6) % 6);
+                    else if ((o.I(1) & 3) == 0) user_sm[u]->s = 0.75 + 0.25 * (((o.I(2) % 6) + 6) % 6);
+                    else
+                    {
+                        // the user changes the per-point dimensions of a map in place and registers it again (same
+                        // address) with every optimizer that uses it, as the setter's contract requires
+                        user_sm[u]->kind = (int)(((o.I(2) % 5) + 5) % 5);
+                        for (int k = 0; k < W::kHandles; ++k)
+                            if (h[k].o && h[k].m.sm_user == u)
+                            {
+                                h[k].o->setSpatialMap(user_sm[u].get());
+                                if (h[k].m.valid) this->check_dimension(h[k], "after re-registering a user map whose dimensions changed");
+                                ctx.count("probe.same_map_pointer_reinstalled");
+                            }
+                        ctx.count("fault.reconfig");
+                    }
                     ctx.count("fault.user_map_mutated");
                     ctx.mark_nontrivial();
                 }
